@@ -269,3 +269,91 @@ theorem bridge_shape :
   ⟨rfl, rfl, rfl, rfl, rfl, rfl, rfl, rfl, rfl, rfl, rfl, rfl⟩
 
 end ElexModel.Gauss
+
+/-! ### the recursive fit with the source's own decisions
+
+`fitRowsSrc` is the recursion skeleton of `GaussianModel.fit` with its two decisions — "does any group fall short of the threshold"
+(`np.min(counts["n"]) < MODEL_THRESHOLD`) and "which groups are large enough" (`n >= @MODEL_THRESHOLD`) — and the threshold itself
+taken from the regenerated source terms. It is proved equal to the model `fitRows`, so the main theorem holds for it. -/
+
+namespace ElexModel.Gauss
+open ElexModel
+
+/-- `np.min(counts["n"])` over the groups of a level -/
+def minCount (conf : List Key) : List Key → ℕ
+  | [] => 0
+  | [p] => cnt conf p
+  | p :: t => min (cnt conf p) (minCount conf t)
+
+/-- the fallback test of the source on a level -/
+def fallsBackSrc (conf : List Key) (lv : List Key) : Bool :=
+  Gen.C15.falls_back (minCount conf lv : ℚ) (Gen.C15.model_threshold (conf.length : ℚ))
+
+/-- the `n >= @MODEL_THRESHOLD` query of the source on one group -/
+def largeSrc (conf : List Key) (p : Key) : Bool :=
+  !Gen.C15.falls_back (cnt conf p : ℚ) (Gen.C15.model_threshold (conf.length : ℚ))
+
+def fitRowsSrc (conf groups : List Key) : ℕ → List Key
+  | 0 => [[]]
+  | l+1 =>
+    if (level groups (l+1)) ≠ [] ∧ fallsBackSrc conf (level groups (l+1)) then
+      fitRowsSrc conf groups l ++ (level groups (l+1)).filter (largeSrc conf)
+    else level groups (l+1)
+
+theorem largeSrc_eq (conf : List Key) : largeSrc conf = big conf := by
+  funext p
+  unfold largeSrc
+  rw [← bridge_threshold, ← bridge_big]
+
+theorem minCount_lt_iff (conf : List Key) (lv : List Key) (hne : lv ≠ []) (t : ℕ) :
+    minCount conf lv < t ↔ ∃ p ∈ lv, cnt conf p < t := by
+  induction lv with
+  | nil => exact absurd rfl hne
+  | cons p tl ih =>
+    cases tl with
+    | nil => simp [minCount]
+    | cons q tl' =>
+      have := ih (by simp)
+      simp only [minCount, min_lt_iff, this, List.mem_cons]
+      constructor
+      · rintro (h | ⟨x, hx, hlt⟩)
+        · exact ⟨p, Or.inl rfl, h⟩
+        · exact ⟨x, Or.inr hx, hlt⟩
+      · rintro ⟨x, hx | hx, hlt⟩
+        · exact Or.inl (hx ▸ hlt)
+        · exact Or.inr ⟨x, hx, hlt⟩
+
+theorem fallsBackSrc_iff (conf : List Key) (lv : List Key) (hne : lv ≠ []) :
+    fallsBackSrc conf lv = true ↔ ¬ (lv.all (big conf) = true) := by
+  unfold fallsBackSrc Gen.C15.falls_back
+  rw [← bridge_threshold]
+  have h1 : (decide ((minCount conf lv : ℚ) < ((thr conf : ℕ) : ℚ)) = true) ↔ minCount conf lv < thr conf := by
+    rw [decide_eq_true_iff]; exact_mod_cast Iff.rfl
+  rw [h1, minCount_lt_iff conf lv hne]
+  simp only [List.all_eq_true, big, decide_eq_true_eq, not_forall, not_le]
+  constructor
+  · rintro ⟨p, hp, h⟩; exact ⟨p, hp, h⟩
+  · rintro ⟨p, hp, h⟩; exact ⟨p, hp, h⟩
+
+theorem fitRowsSrc_eq (conf groups : List Key) (l : ℕ) : fitRowsSrc conf groups l = fitRows conf groups l := by
+  induction l with
+  | zero => rfl
+  | succ l ih =>
+    unfold fitRowsSrc fitRows
+    rw [ih, largeSrc_eq]
+    by_cases hne : level groups (l+1) = []
+    · simp [hne]
+    · by_cases hall : (level groups (l+1)).all (big conf) = true
+      · have : ¬ (fallsBackSrc conf (level groups (l+1)) = true) := by
+          rw [fallsBackSrc_iff conf _ hne]; exact not_not.mpr hall
+        simp [hne, hall, this]
+      · have : fallsBackSrc conf (level groups (l+1)) = true := (fallsBackSrc_iff conf _ hne).mpr hall
+        simp [hne, hall, this]
+
+/-- **C15 on the source**: with the threshold, the fallback test and the large-group query as they are written in `/repo/src` today,
+    the matching loop assigns to every group exactly the source the rule names -/
+theorem source_assign_eq_source (conf groups : List Key) (L : ℕ) (g : Key) (hg : g ∈ groups) (hlen : g.length = L) :
+    assign (fitRowsSrc conf groups L) L g = some (source conf L g) := by
+  rw [fitRowsSrc_eq]; exact assign_eq_source conf groups L g hg hlen
+
+end ElexModel.Gauss
